@@ -242,11 +242,53 @@ type RecBackend struct {
 	clients  []*broker.Client
 	failNext map[string]int // inject an error into the n-th call of a kind: "setup", "publish", "subscribe", "terminate"
 	calls    map[string]int
+	// gates: the n-th connection presenting a client id can have its Terminate held back, or the return of
+	// its Dequeue held until the connection is closing — to steer the real goroutines into a chosen interleaving
+	perID    map[string][]*broker.Client
+	termGate map[string]chan struct{} // "<id>/<n>" -> closed to release
+	deqGate  map[string]bool          // "<id>/<n>" -> hold a dequeued message until Closing()
+	gateOf   map[*broker.Client]string
+}
+
+func (b *RecBackend) holdTerminate(id string, n int) func() {
+	ch := make(chan struct{})
+	b.mu.Lock()
+	b.termGate[fmt.Sprintf("%s/%d", id, n)] = ch
+	b.mu.Unlock()
+	return func() { close(ch) }
+}
+
+func (b *RecBackend) holdDequeueUntilClosing(id string, n int) {
+	b.mu.Lock()
+	b.deqGate[fmt.Sprintf("%s/%d", id, n)] = true
+	b.mu.Unlock()
+}
+
+// setupCalls reports how many connections have presented the id so far
+func (b *RecBackend) setupCalls(id string) int {
+	b.mu.Lock()
+	defer b.mu.Unlock()
+	return len(b.perID[id])
+}
+
+func (b *RecBackend) Dequeue(c *broker.Client) (*packet.Message, broker.Ack, error) {
+	m, ack, err := b.MemoryBackend.Dequeue(c)
+	b.mu.Lock()
+	hold := m != nil && b.deqGate[b.gateOf[c]]
+	b.mu.Unlock()
+	if hold {
+		select {
+		case <-c.Closing():
+		case <-time.After(3 * time.Second):
+		}
+	}
+	return m, ack, err
 }
 
 func newRecBackend() *RecBackend {
 	return &RecBackend{MemoryBackend: broker.NewMemoryBackend(), log: &sysLog{ids: map[*broker.Client]int{}},
-		setups: map[*broker.Client]int{}, terms: map[*broker.Client]int{}, failNext: map[string]int{}, calls: map[string]int{}}
+		setups: map[*broker.Client]int{}, terms: map[*broker.Client]int{}, failNext: map[string]int{}, calls: map[string]int{},
+		perID: map[string][]*broker.Client{}, termGate: map[string]chan struct{}{}, deqGate: map[string]bool{}, gateOf: map[*broker.Client]string{}}
 }
 
 var errInjected = fmt.Errorf("injected backend failure")
@@ -261,6 +303,8 @@ func (b *RecBackend) inject(kind string) bool {
 func (b *RecBackend) Setup(c *broker.Client, id string, clean bool) (broker.Session, bool, error) {
 	b.mu.Lock()
 	b.clients = append(b.clients, c)
+	b.perID[id] = append(b.perID[id], c)
+	b.gateOf[c] = fmt.Sprintf("%s/%d", id, len(b.perID[id]))
 	b.mu.Unlock()
 	b.log.add(c, "SetupCall %s %s", hx.Hx([]byte(id)), hx.B01(clean))
 	if b.inject("setup") {
@@ -286,7 +330,14 @@ func (b *RecBackend) Setup(c *broker.Client, id string, clean bool) (broker.Sess
 func (b *RecBackend) Terminate(c *broker.Client) error {
 	b.mu.Lock()
 	b.terms[c]++
+	gate := b.termGate[b.gateOf[c]]
 	b.mu.Unlock()
+	if gate != nil {
+		select {
+		case <-gate:
+		case <-time.After(4 * time.Second):
+		}
+	}
 	err := b.MemoryBackend.Terminate(c)
 	b.log.add(c, "Term")
 	if b.inject("terminate") {
